@@ -24,11 +24,14 @@ type ascript struct {
 	RetErr    bool             `json:"ret_err"`
 	DefParts  int32            `json:"def_parts"`
 	Overrides map[string]int32 `json:"overrides"`
-	Exps      []exp            `json:"exps"`
-	Msgs      []msg            `json:"msgs"`
-	Senders   int              `json:"senders"`
-	Steer     bool             `json:"steer"`
-	Order     []int            `json:"order,omitempty"`
+	// DefParts/Overrides is the configuration meant to be in effect; CfgVariant picks how it is put in place and which
+	// of the maps handed to SetPartitions the harness afterwards edits or shares with another mock (cfgOps)
+	CfgVariant int   `json:"cfg_variant"`
+	Exps       []exp `json:"exps"`
+	Msgs       []msg `json:"msgs"`
+	Senders    int   `json:"senders"`
+	Steer      bool  `json:"steer"`
+	Order      []int `json:"order,omitempty"`
 	// Shutdown: "" / "close" = Close(); "asyncclose" = AsyncClose(), then wait until Successes() and Errors() are closed
 	Shutdown string `json:"shutdown,omitempty"`
 }
@@ -62,7 +65,7 @@ func runAsync1(s ascript) (obsAsync, []msg) {
 	cfg.ChannelBufferSize = 64
 	cfg.Producer.Partitioner = plog.constructor()
 	mp := mocks.NewAsyncProducer(rep, cfg)
-	setPartitions(mp.TopicConfig, s.DefParts, s.Overrides)
+	applyCfg(mp.TopicConfig, cfgOps(s.DefParts, s.Overrides, s.CfgVariant))
 	addExps(s.Exps, clog, expAPI{
 		msgChk: func(c mocks.MessageChecker, succ bool, err error) {
 			if succ {
@@ -196,7 +199,7 @@ func runAsync1(s ascript) (obsAsync, []msg) {
 }
 
 func genAsync(r *rand.Rand) ascript {
-	s := ascript{Mode: "async", RetSucc: r.Intn(4) != 0, RetErr: r.Intn(4) != 0, DefParts: int32(1 + r.Intn(40)), Overrides: map[string]int32{}, Senders: 1}
+	s := ascript{Mode: "async", CfgVariant: r.Intn(32), RetSucc: r.Intn(4) != 0, RetErr: r.Intn(4) != 0, DefParts: int32(1 + r.Intn(40)), Overrides: map[string]int32{}, Senders: 1}
 	for i := 0; i < 3; i++ {
 		if r.Intn(3) == 0 {
 			s.Overrides[topicName(i)] = int32(1 + r.Intn(9))
@@ -361,6 +364,8 @@ func asyncCorpus() []ascript {
 		{Mode: "async", RetSucc: true, RetErr: true, DefParts: 32, Overrides: map[string]int32{}, Senders: 1, Exps: nil, Msgs: []msg{{ID: 1, POk: true, P: 2}, {ID: 2, POk: false, PErr: 301}}},
 		// left-over expectations with the AsyncClose + wait-for-channels shutdown (seeded change C20-5 moved the report into Close())
 		{Mode: "async", RetSucc: true, RetErr: true, DefParts: 32, Overrides: map[string]int32{}, Senders: 1, Shutdown: "asyncclose", Exps: []exp{{Succ: true}, {Succ: false, Err: 101}}, Msgs: []msg{{ID: 1, POk: true, P: 2}}},
+		// the map given to the first SetPartitions is edited by the caller and shared with a second mock afterwards (seeded change C20-9)
+		{Mode: "async", RetSucc: true, RetErr: true, DefParts: 6, Overrides: map[string]int32{"t0": 3}, CfgVariant: 5, Senders: 1, Exps: []exp{{Succ: true}, {Succ: true}}, Msgs: []msg{{ID: 1, Topic: 0, POk: true, P: 2}, {ID: 2, Topic: 1, POk: true, P: 1}}},
 		// two senders, steered interleaving B A B A, a checker failure and a partitioner failure in the middle
 		{Mode: "async", RetSucc: true, RetErr: true, DefParts: 8, Overrides: map[string]int32{}, Senders: 2, Steer: true, Order: []int{1, 0, 1, 0},
 			Exps: []exp{{Succ: true}, {Succ: true, Chk: 2, CErr: 202}, {Succ: false, Err: 103}, {Succ: true, Chk: 1}},
@@ -381,8 +386,8 @@ func asyncCase(s ascript) (string, cf.Sidecar) {
 	if s.Shutdown == "asyncclose" {
 		sd = "ShAsyncClose"
 	}
-	term := fmt.Sprintf("{| ac_cfg := {| ret_succ := %s; ret_err := %s |}; ac_sd := "+sd+"; ac_def := %d; ac_over := %s; ac_exps := %s; ac_msgs := %s; ac_succ := %s; ac_errs := %s; ac_reports := %s; ac_np := %s; ac_ctor := %s; ac_checks := %s; ac_final := %s |}",
-		cf.Bool(s.RetSucc), cf.Bool(s.RetErr), s.DefParts, coqOverrides(s.Overrides), coqExps(s.Exps), coqMsgs(arrival), cf.List(su), cf.List(er), cf.List(o.Reports), coqZ3s(o.NP), cf.ZList(o.Ctors), coqZ2s(o.Checks), coqZ2s(o.Final))
+	term := fmt.Sprintf("{| ac_cfg := {| ret_succ := %s; ret_err := %s |}; ac_sd := "+sd+"; ac_tc := %s; ac_exps := %s; ac_msgs := %s; ac_succ := %s; ac_errs := %s; ac_reports := %s; ac_np := %s; ac_ctor := %s; ac_checks := %s; ac_final := %s |}",
+		cf.Bool(s.RetSucc), cf.Bool(s.RetErr), coqCfgOps(cfgOps(s.DefParts, s.Overrides, s.CfgVariant)), coqExps(s.Exps), coqMsgs(arrival), cf.List(su), cf.List(er), cf.List(o.Reports), coqZ3s(o.NP), cf.ZList(o.Ctors), coqZ2s(o.Checks), coqZ2s(o.Final))
 	kind := "async"
 	if s.Senders == 2 {
 		kind = "async-2senders"
